@@ -323,6 +323,18 @@ func (g gen07) textReq(big bool) wire.Req {
 	case 6, 7, 8:
 		n := 1 + g.r.Intn(5)
 		r := wire.Req{Kind: wire.Get}
+		if g.r.Chance(6) {
+			// a command line longer than the connection's 4096-byte read buffer: 17..40 keys of 250 bytes
+			n = 17 + g.r.Intn(24)
+			for i := 0; i < n; i++ {
+				k := g.textKey()
+				for len(k) < 250 {
+					k = append(k, g.textKey()...)
+				}
+				r.Items = append(r.Items, wire.Item{Key: k[:250]})
+			}
+			return r
+		}
 		for i := 0; i < n; i++ {
 			r.Items = append(r.Items, wire.Item{Key: g.textKey()})
 		}
